@@ -501,6 +501,14 @@ where
         let result = tournament_tree.merge_to_vec()?;
         self.stats.merge_passes = 1;
 
+        // Unreadable run records are skipped above; never return a silently shortened result
+        let expected: usize = self.temp_files.iter().map(|r| r.items_count).sum();
+        if result.len() != expected {
+            return Err(ZiporaError::io_error(format!(
+                "Run files damaged: merged {} of {} items", result.len(), expected
+            )));
+        }
+
         Ok(result)
     }
 
